@@ -15,7 +15,7 @@ from .. import serial_corr as SC
 from .c07 import rebuild_ops
 
 LEVEL = 'proof'
-NEEDS = ['SFSerialEq', 'Extracted', 'SourceFacts', 'Base', 'Names', 'Graph', 'GraphObs', 'GraphTS', 'GraphInv', 'Serial', 'SerialProofs', 'Closed']
+NEEDS = ['JsonText', 'CorrJsonText', 'JsonTextProofs', 'SFSerialEq', 'Extracted', 'SourceFacts', 'Base', 'Names', 'Graph', 'GraphObs', 'GraphTS', 'GraphInv', 'Serial', 'SerialProofs', 'Closed']
 RES = ('time_lag', 'variable_name')
 
 
